@@ -94,20 +94,6 @@ def r_revrange(text, var, bound_re, what, trace):
     return text[:m.start()] + '%slet mut k_ = %s;   // R-revrange\n%swhile k_ > 0\n%s{\n%s    k_ -= 1;\n%s    let %s = k_;\n' % (ind, m.group(2), ind, ind, ind, ind, var) + text[m.end():]
 
 
-def split_headers(text):
-    """loop headers and the function signature get their opening brace on a line of its own (the template has invariants in between)"""
-    out = []
-    for l in text.split('\n'):
-        s = l.strip()
-        if (s.startswith('for ') or s.startswith('while ')) and s.endswith(' {'):
-            ind = l[:len(l) - len(l.lstrip())]
-            out.append(l.rstrip()[:-2].rstrip())
-            out.append(ind + '{')
-        else:
-            out.append(l)
-    return '\n'.join(out)
-
-
 def build_pixels(f, trace):
     q = 'Worker::render_tile_pixels'
     f = sub_re(f, r'\btile_size\.pow\(3\)', 'pow3(tile_size)', q, 3, trace, 'R-pow')
@@ -229,60 +215,7 @@ def build_render(f, trace):
     return f
 
 
-# ------------------------------------------------------------------ weaving
-GMARK = '/*G*/'
-
-
-def code_key(l):
-    return norm(re.sub(r'//.*$', '', l))
-
-
-class LostAnchor(Exception):
-    pass
-
-
-def weave(template, real, what):
-    """template: annotated function text, ghost lines start with GMARK; real: the rewritten real function text.
-    The template's code lines are aligned with the real lines; the real lines are emitted, ghost lines keep their place relative to the
-    aligned code line that follows them.  Real lines without a partner are emitted where they stand; template code lines without a partner
-    are dropped (their ghost lines stay).  More than a third of the code lines without partner: the function is reported undecided."""
-    t_lines = template.split('\n')
-    r_lines = [l for l in split_headers(real).split('\n') if l.strip()]
-    t_code = [(i, code_key(l)) for i, l in enumerate(t_lines) if not l.startswith(GMARK) and l.strip()]
-    sm = difflib.SequenceMatcher(a=[k for _, k in t_code], b=[code_key(l) for l in r_lines], autojunk=False)
-    partner = {}      # template line index -> list of real lines to emit in its place
-    matched = 0
-    for tag, a0, a1, b0, b1 in sm.get_opcodes():
-        if tag == 'equal':
-            for d in range(a1 - a0):
-                partner[t_code[a0 + d][0]] = [r_lines[b0 + d]]
-                matched += 1
-        elif tag in ('replace', 'insert', 'delete'):
-            reals = r_lines[b0:b1]
-            tl = [t_code[a][0] for a in range(a0, a1)]
-            if tl:
-                # spread: first template line gets all real lines of the block (order preserved), the others nothing
-                partner[tl[0]] = reals
-                for x in tl[1:]:
-                    partner[x] = []
-            elif reals:
-                # pure insertion: attach in front of the next template code line (or at the end)
-                nxt = t_code[a0][0] if a0 < len(t_code) else None
-                partner.setdefault(('ins', nxt), []).extend(reals)
-    if len(t_code) and matched * 3 < len(t_code) * 2:
-        raise LostAnchor('%s: only %d of %d code lines of the proof template match the source' % (what, matched, len(t_code)))
-    out = []
-    for i, l in enumerate(t_lines):
-        if ('ins', i) in partner:
-            out += partner[('ins', i)]
-        if l.startswith(GMARK):
-            out.append(l[len(GMARK):])
-        elif not l.strip():
-            out.append(l)
-        else:
-            out += partner.get(i, [])
-    out += partner.get(('ins', None), [])
-    return '\n'.join(out), matched, len(t_code)
+from lib.weave import weave, split_headers, GMARK, LostAnchor
 
 
 def tmpl(name):
